@@ -12,7 +12,8 @@ Hdr == Rec[1]
 TF  == [p |-> Hdr.p, lv |-> Hdr.lv]
 TK  == Len(Hdr.lv)
 TC  == IF Hdr.kind = "sw"
-       THEN [kind |-> "sw", F |-> TF, K |-> TK, a |-> Hdr.a, b |-> Hdr.b, r |-> Hdr.r, h |-> Hdr.h]
+       THEN [kind |-> "sw", F |-> TF, K |-> TK, a |-> Hdr.a, b |-> Hdr.b, r |-> Hdr.r, h |-> Hdr.h,
+             lambda |-> IF "lambda" \in DOMAIN Hdr THEN Hdr.lambda ELSE Hdr.r]
        ELSE [kind |-> "te", F |-> TF, K |-> TK, a |-> Hdr.a, d |-> Hdr.d, r |-> Hdr.r, h |-> Hdr.h]
 TNREG == Hdr.nreg
 NL  == Hdr.nlimbs
@@ -47,6 +48,10 @@ MachineStep(e) ==
       [] e.op = "sum" -> Sum(e.d, e.ss)
       [] e.op = "mul" -> Mul(e.d, e.k, e.alg)
       [] e.op = "msm" -> MsmLin(e.d, e.s, e.as, e.ks, e.alg)
+      [] e.op = "recover" -> Recover(e.c, e.got)
+      [] e.op = "from_coord" -> FromCoord(e.d, e.c, e.greatest, Abs(e.w[1][2]))
+      [] e.op = "rand" -> RandPoint(e.d, Abs(e.w[1][2]))
+      [] e.op = "glv_decomp" -> GlvDecomp(e.k, e.s1, e.k1, e.s2, e.k2)
       [] e.op \in {"eq", "is_zero", "on_curve", "in_subgroup"} -> Query(e.op, e.d, e.s)
       [] e.op = "clear_cofactor" -> IF "heff_rel" \in DOMAIN Hdr THEN ClearCofactorRel(e.d, Abs(e.w[1][2])) ELSE ClearCofactor(e.d, HEFF)
       [] e.op = "mul_by_cofactor" -> MulByCofactor(e.d)
@@ -57,7 +62,7 @@ Act == /\ phase = "act" /\ l <= Len(Rec)
        /\ LET e == Rec[l] IN
             \/ ~Has(e, "panic") /\ MachineStep(e)
             \/ /\ \/ Has(e, "panic")
-                  \/ e.op \in {"load", "add", "sub", "dbl", "mul_by_cofactor_inv", "clear_cofactor"} /\ ~ENABLED MachineStep(e)
+                  \/ e.op \in {"load", "add", "sub", "dbl", "mul_by_cofactor_inv", "clear_cofactor", "recover", "from_coord", "rand", "glv_decomp"} /\ ~ENABLED MachineStep(e)
                /\ UNCHANGED regs
                /\ ev' = [op |-> "REJECTED"]
        /\ phase' = "cmp" /\ UNCHANGED <<l, nbad>>
